@@ -122,9 +122,9 @@ def body(chk):
         sname = rng.choice(list(STRATS))
         coq_strat, kw = STRATS[sname]
         method = rng.choice(["slicing", "imc"])
-        api = rng.choice(["function", "class"])
+        api = rng.choice(["function", "class", "propagation"])
         mixed_ok = ("P" in kinds) or ("I" in kinds and "D" in kinds)
-        if api == "class" and not mixed_ok:
+        if api != "function" and not mixed_ok:
             api = "function"
         seed = rng.randint(0, 10 ** 6)
         dep_spec = gen_dep(rng, d) if method == "imc" else None
@@ -136,6 +136,17 @@ def body(chk):
         def call():
             vars_ = [build(v) for v in vspec]
             dep = mk_dep(dep_spec)
+            if api == "propagation":       # the high-level API on uncertain numbers
+                from pyuncertainnumber.propagation.p import Propagation
+                from pyuncertainnumber.characterisation.uncertainNumber import UncertainNumber as UN
+                uns = [UN.fromConstruct(v) for v in vars_]
+                extra = {k: v for k, v in kw.items() if k != "interval_strategy"}
+                if method == "slicing":
+                    r = Propagation(vars=uns, func=f, method="slicing", interval_strategy=kw["interval_strategy"]).run(n_slices=n, **extra)
+                    return (r.construct if hasattr(r, "construct") else r), None
+                r = Propagation(vars=uns, func=f, method="interval_monte_carlo", dependency=dep, interval_strategy=kw["interval_strategy"]).run(
+                    n_sam=n, random_state=seed, **extra)
+                return (r.construct if hasattr(r, "construct") else r), np.asarray((dep or pba.Dependency("independence", k_dim=d)).u_sample(n, random_state=seed))
             if method == "slicing":
                 if api == "function":
                     return mixed_up.slicing(vars_, f, n_slices=n, **kw), None
